@@ -10,7 +10,12 @@ idle before the request) x restart delay x caller timeout x level
     C  client level    : ECU(transport, timeout, max_retry).send_raw(22 f1 90); 15 s later the same request again
 Compared with the model: result / outcome class and payload, virtual completion times, close state, reconnect result,
 number of connections accepted, every request transmission (connection index, time).  Independently of the model the
-property's clauses are evaluated on the implementation's observations (`spec_check`)."""
+property's clauses are evaluated on the implementation's observations (`spec_check`).
+
+Whole executions (`run_sys`, lib/c08sys.py, lib/lossys.py, Model/LossSys.lean): generated event lists - client calls
+(request / close / reconnect / transport read), peer events (deliver any bytes, cut, listener up / down, serve, routing
+activation answered / lost), advance - for max_retry 0..3 run against the real UDSClient over the real transports with a
+scripted peer and against the model; every call's outcome, end time, connection count and the wire log are compared."""
 from __future__ import annotations
 
 import asyncio
@@ -20,6 +25,7 @@ import os
 
 from common import setup_repo_import
 from lib import lossworld as LW
+from lib import c08sys as CS
 import vloop
 from vloop import Spin, Stall, vrun
 
@@ -43,6 +49,17 @@ ASSUMPTIONS = [
     "same connection (timeouts never trigger a reconnect); 'recovers through an automatic reconnect' is therefore stated "
     "for losses that surface as ConnectionError / end-of-stream",
     "one client task uses the transport (C05 covers concurrent users)",
+    "whole executions (Model/LossSys.lean): the event list is one time line; a peer event happens at the time of the "
+    "previous event plus the advances in between; between two events of one instant the client runs until it blocks "
+    "(12 loop iterations are granted); a deadline that falls exactly on the time of a peer event is not compared (the "
+    "model counts such ties, the tie skips them: < 0.5 % of the generated lists)",
+    "connection set-up: a refused TCP connect and an unanswered DoIP routing activation are modelled; a TCP connect that "
+    "hangs (SYN dropped) is bounded by the kernel's connect timeout, not by gallia (reconnect() of the line / HSFZ "
+    "transports passes timeout=None; DoIP bounds it by its 10 s window) - outside the model; TargetURI parsing is C20's",
+    "replies are classified by the driver's `clsS` for requests 22 f1 90: 7f 22 78 pending, 7f 22 21 busy, 7f 22 xx negative, "
+    "62 f1 90 .. positive; the generated peers send only these (plus truncated frames and empty messages)",
+    "a DoIP frame that does not unpack kills the reader task, which closes the connection (modelled); malformed HSFZ "
+    "length fields (a frame that never completes) behave like silence",
 ]
 
 T0 = 100          # ms: the request is issued
@@ -209,12 +226,16 @@ def run_impl(case):
 
 def _worker(cases):
     setup_repo_import()
-    return [run_impl(c) for c in cases]
+    return [run_any(c) for c in cases]
+
+
+def run_any(c):
+    return CS.run_impl(c, _ensure_patched, _CUR) if "ev" in c else run_impl(c)
 
 
 def run_impl_many(cases, nproc):
     if nproc <= 1 or len(cases) < 300:
-        return [run_impl(c) for c in cases]
+        return [run_any(c) for c in cases]
     size = max(40, len(cases) // (nproc * 4))
     parts = [cases[i:i + size] for i in range(0, len(cases), size)]
     with mp.get_context("fork").Pool(nproc) as pool:
@@ -490,13 +511,112 @@ def run(ctx):
     ctx.notes["model_difference_classes"] = nt
     for i in (0, len(cases) // 3, len(cases) // 2, len(cases) - 1):
         ctx.sample({"case": cases[i], "impl": impl[i], "model": model[i]})
+    run_sys(ctx, nproc)
     wait_for_ecu_probe(ctx)
     ctx.notes["silence_on_line_transports"] = (
         "a silent peer on tcp-lines / unix-lines only produces timeouts: the client retries on the same connection and ends "
         "with MissingResponse in bounded time; no reconnect is attempted (model and implementation agree)")
 
 
+# ---------------------------------------------------------------------------------------------------------------
+# whole executions (Model/LossSys.lean)
+
+def gen_sys_cases(ctx):
+    rng = ctx.rng
+    cases = []
+    n_s, n_a = ctx.pick(5200, 40000), ctx.pick(2800, 20000)
+    if ctx.widened:
+        n_s, n_a = n_s * 3, n_a * 3
+    trs = ["tcp-lines", "doip", "hsfz", "unix-lines"]
+    for i in range(n_s):
+        cases.append(CS.gen_sensible(rng, trs[i % 4] if i % 8 < 7 else "tcp-lines"))
+    for i in range(n_a):
+        cases.append(CS.gen_adversarial(rng, trs[i % 3]))
+    cases += CS.gen_backlogs()
+    return cases
+
+
+def sys_differs(ctx, c):
+    a = run_any(c)
+    b, ties = CS.canon_model(ctx.lean([CS.model_line(c)])[0])
+    return ties == 0 and (a != b or bool(CS.spec_check(c, a, b)))
+
+
+def run_sys(ctx, nproc):
+    cases = gen_sys_cases(ctx)
+    impl = run_impl_many(cases, nproc)
+    model = ctx.lean([CS.model_line(c) for c in cases])
+    ties = 0
+    viol, broken = {}, {}
+    for c, a, mline in zip(cases, impl, model):
+        b, t = CS.canon_model(mline)
+        ctx.ev()
+        ctx.kind("sys:" + c["stream"], f"sys-tr:{c['tr']}", f"sys-max_retry:{c['mr']}")
+        if t:
+            ties += 1      # a deadline falls exactly on a peer event: order not modelled, not compared
+            continue
+        ctx.nontrivial(CS.case_key(c))
+        ctx.traces_validated += 1
+        for tok in a.split(" "):
+            if tok.startswith(("req:", "rc:")):
+                ctx.kind("sys-outcome:" + ":".join(tok.split(":")[:2]))
+        sv = CS.spec_check(c, a, b) if c["stream"].startswith("sensible") else [x for x in CS.spec_check(c, a, b) if x[0] != "fabricated-data"]
+        for clause, text in sv:
+            k = f"{clause}:{c['tr']}"
+            if k not in viol or len(c["ev"]) < len(viol[k][0]["ev"]):
+                viol[k] = (c, a, b, clause, text)
+        if a != b and not sv:
+            fa, fb = a.split(" "), b.split(" ")
+            first = next((i for i, (x, y) in enumerate(zip(fa + ["?"] * 99, fb + ["?"] * 99)) if x != y), 0)
+            what = (fa + ["?"] * 99)[first].split(":")[0] if first < len(fa) and ":" in (fa + ["?"] * 99)[first] else "log"
+            k = f"{what}:{c['tr']}"
+            if k not in broken or len(c["ev"]) < len(broken[k][0]["ev"]):
+                broken[k] = (c, a, b)
+    for k, (c, a, b, clause, text) in sorted(viol.items()):
+        c2 = CS.shrink(c, lambda x: any(cl == clause for cl, _ in CS.spec_check(
+            x, run_any(x), CS.canon_model(ctx.lean([CS.model_line(x)])[0])[0])))
+        a2 = run_any(c2)
+        b2 = CS.canon_model(ctx.lean([CS.model_line(c2)])[0])[0]
+        ctx.disagree(f"c08sys:{clause}:{c2['tr']}:mr={c2['mr']}:{' '.join(c2['ev'])}",
+                     f"{c2['tr']} whole execution, max_retry={c2['mr']}: {text}",
+                     {"case": c2, "model_line": CS.model_line(c2)}, impl=a2, model=b2, spec_violated=True,
+                     site="UDSClient.request_unsafe / BaseTransport.reconnect")
+    for k, (c, a, b) in sorted(broken.items()):
+        c2 = CS.shrink(c, lambda x: sys_differs(ctx, x))
+        a2 = run_any(c2)
+        b2 = CS.canon_model(ctx.lean([CS.model_line(c2)])[0])[0]
+        ctx.disagree(f"c08sys:model-differs:{c2['tr']}:mr={c2['mr']}:{' '.join(c2['ev'])}",
+                     f"{c2['tr']} whole execution, max_retry={c2['mr']}: implementation and model differ",
+                     {"case": c2, "model_line": CS.model_line(c2)}, impl=a2, model=b2, spec_violated=False,
+                     site="UDSClient.request_unsafe / BaseTransport.reconnect")
+    ctx.exhaustive_parts.append(
+        "whole executions: backlog of N unconsumed frames, N in {0, 1, 63, 64, 65, 128, 200}, x {hsfz, doip, tcp-lines} x "
+        "{eof, reset} x read timeout {None, 0.5 s}, N + 2 transport reads each (84 lists); the other event lists are sampled")
+    ctx.notes["sys_cases"] = len(cases)
+    ctx.notes["sys_ties_skipped"] = ties
+    ctx.notes["sys_spec_violation_classes"] = len(viol)
+    ctx.notes["sys_model_difference_classes"] = len(broken)
+    for i in (0, len(cases) // 2, len(cases) - 1):
+        ctx.sample({"case": cases[i], "impl": impl[i], "model": model[i]})
+
+
+def _replay_sys(ctx, c):
+    a = run_any(c)
+    mline = ctx.lean([CS.model_line(c)])[0]
+    b, ties = CS.canon_model(mline)
+    print("case  :", json.dumps(c, sort_keys=True))
+    print("events:", " ".join(c["ev"]))
+    print("impl  :", a)
+    print("model :", b, f"(ties {ties})")
+    v = CS.spec_check(c, a, None if ties else b)
+    for clause, text in v:
+        print(f"property clause violated by the implementation: {clause}: {text}")
+    return 1 if (v or (a != b and not ties)) else 0
+
+
 def _replay_one(ctx, c):
+    if "ev" in c:
+        return _replay_sys(ctx, c)
     a = run_impl(c)
     b = ctx.lean([model_line(c)])[0]
     print("case  :", json.dumps(c, sort_keys=True))
@@ -560,7 +680,26 @@ def replay(ctx, case):
 
 
 MANIFEST = {
-    "level_text": ("Lean 4 theorems over an executable model of connection loss on the four stream transports composed with "
+    "level_text": ("WHOLE EXECUTIONS (Model/LossSys.lean, 15 theorems): for every max_retry = n, every state and every event list "
+                   "(client calls request / close / reconnect / transport read; peer events deliver any bytes, cut eof / reset / "
+                   "silence, listener up / down, serve, routing activation answered / lost; advance) every call with a caller "
+                   "timeout t ends within callBudget = sum over the attempts of min(t, ack) + t + ResponsePending budget, plus per "
+                   "retry retry_wait * 2^i + reconnect window (sys_every_call_ends; exact closed form without ResponsePending "
+                   "(n+1)(min(t,ack)+t) + n*window + sum retry_wait*2^i, attained by a silent peer: sys_every_call_ends_exact, "
+                   "callBudget_closed; lifted to every observation of every run: sys_run_calls_end); a returned reply is a completely received message of the connection the last write of the "
+                   "request went out on, every reconnect starts from an empty queue (sys_no_fabrication, "
+                   "sys_no_fabrication_attempt; a stale reply on the SAME connection is returned - shown by example); the request "
+                   "is written exactly once per attempt, timeouts / busy retry on the same connection, a new connection is opened "
+                   "only after a loss that surfaced as ConnectionError / end-of-stream with a retry left (sys_retries_exact, "
+                   "sys_retries_exact_attempt, sys_retries_exact_conn); with n >= 1, the peer accepting and answering, the call "
+                   "returns the peer's reply through exactly one new connection (sys_recovers; n = 0 witness); close is idempotent "
+                   "and close; request recovers (sys_close_idempotent, sys_close_harmless); a read on an ended / closed connection "
+                   "returns at once for any backlog (sys_backlog_read_ends). Tied by running generated event lists (sensible: a "
+                   "request, a loss, a recovery, set-up disturbances, close / reconnect, duplicate acks; adversarial; backlog "
+                   "0..200 frames before eof / reset) against the real UDSClient over the real TCPLines / UnixLines / DoIP / HSFZ "
+                   "transports with a scripted in-memory peer under virtual time: outcome, end time and connection count of every "
+                   "call, every request on the wire (connection, time, bytes), refused connection attempts. ONE EXCHANGE: "
+                   "Lean 4 theorems over an executable model of connection loss on the four stream transports composed with "
                    "the UDS client's retry / reconnect loop: for an arbitrary delivered prefix (every cut point of every "
                    "stream) and cut kind (eof / reset / silence) the pending request_unsafe ends with data, timeout, "
                    "connection error or end-of-stream no later than caller timeout + ack time (loss_bounded); without caller "
@@ -574,11 +713,12 @@ MANIFEST = {
                    "DoIP / HSFZ transports, BaseTransport.reconnect and ECU over in-memory peers with a listener that is "
                    "down for a virtual delay: every byte offset of two reply streams per transport x 3 cut kinds x 3 event "
                    "times x restart {0, 0.3, 3, 12 s} x caller timeout {None, 0.5, 5 s} x {transport level, client level}."),
-    "level_note": ("Partial: real socket errors (EPIPE vs ECONNRESET timing, half-open connections, kernel buffering) are "
+    "level_note": ("Whole executions: one client task; a hanging TCP connect is bounded by the kernel only; deadline/event ties are "
+                   "skipped; replies restricted to the 22 f1 90 vocabulary. Partial: real socket errors (EPIPE vs ECONNRESET timing, half-open connections, kernel buffering) are "
                    "represented by the three cut kinds; one client task; silence on a line transport never triggers a "
                    "reconnect (indistinguishable from a slow peer) - recovery is stated for losses that surface as "
                    "ConnectionError / end-of-stream. Trusted: Lean kernel (propext, Quot.sound, Classical.choice), asyncio "
                    "StreamReader / Queue / wait_for contracts, the in-memory peers and the virtual-time loop."),
-    "technique": "Lean 4 proof (case analysis over the loss machine, induction over the client loop, C19/C06/C07 framing lemmas) + differential correspondence under virtual time with exhaustive cut-point enumeration",
+    "technique": "Lean 4 proof (case analysis over the loss machine, induction over the client loop and over event lists, time-budget potential, C19/C06/C07 framing lemmas) + differential correspondence under virtual time with exhaustive cut-point enumeration and generated whole executions (sensible + adversarial + backlog)",
     "design_ref": "DESIGN.md section 7, C08",
 }
